@@ -811,7 +811,9 @@ def run_prox(case, driver):
     for batch in case["adds"]:
         n = len(batch)
         with np.errstate(all="ignore"):
-            a.add(np.arange(sid, sid + n, dtype=DT[spec["dtype"]]).reshape(n, 1), np.zeros(n), np.array(batch, dtype=DT[spec["dtype"]]).reshape(n, nd))
+            # with local competition later candidates carry higher objectives, so non-novel ones REPLACE (and move) their nearest entry
+            objs = np.arange(sid, sid + n, dtype=np.float64) if spec.get("lc") else np.zeros(n)
+            a.add(np.arange(sid, sid + n, dtype=DT[spec["dtype"]]).reshape(n, 1), objs, np.array(batch, dtype=DT[spec["dtype"]]).reshape(n, nd))
         sid += n
     data = a.data(["measures", "index"])
     stored = {int(i): [float(x) for x in m] for i, m in zip(data["index"], data["measures"])}
@@ -1238,6 +1240,16 @@ def gen_prox_case(rng, tier):
                 m = list(rng.choice(batch)) if batch else [0.0] * nd
             batch.append([u.cast(x, dtype) for x in m])
         adds.append(batch)
+    if adds and not dense and rng.random() < 0.45:
+        # local competition: a last call that only REPLACES (nothing novel in it) moves stored entries without growing the archive;
+        # index_of must answer for the moved positions
+        spec["lc"] = True
+        spec["thr"] = rng.choice([0.4, 0.75, 1.5])
+        base = [m for b in adds for m in b]
+        moved = []
+        for m in rng.sample(base, min(len(base), rng.randint(1, 6))):
+            moved.append([u.cast(x + rng.uniform(-0.3, 0.3) * spec["thr"] / max(1, nd) ** 0.5, dtype) for x in m])
+        adds.append(moved)
     flat = [m for b in adds for m in b] or [[0.0] * nd]
     vdt = "f" if spec["mdtype"] == "f" else "d"
     qs = []
